@@ -84,6 +84,24 @@ Section Schema.
 
   Lemma honest_weaken (P Q : S -> C -> Prop) W : (forall s c, Q s c -> P s c) -> honest_on P W -> honest_on Q W.
   Proof. intros HPQ [H1 H2 H3]. split; intros s c Hq; [apply H1|apply H2|apply H3]; apply HPQ, Hq. Qed.
+  (* everything honesty gives, in one statement *)
+  Lemma schema (P : S -> C -> Prop) (W : cond_write) :
+    honest_on P W -> forall s c, P s c ->
+    (effective W s c -> (cw_matched W s c = true /\ cw_valid W s c = true <-> applied W s c)) /\
+    (effective W s c -> (cw_ok W s c = true <-> applied W s c)) /\
+    (applied W s c -> cw_matched W s c = true /\ cw_valid W s c = true) /\
+    (~ applied W s c -> cw_post W s c = s) /\
+    (cw_matched W s c = false -> cw_post W s c = s) /\
+    (cw_post W s c = s \/ cw_post W s c = cw_write W s c).
+  Proof.
+    intros H s c Hp. split; [|split; [|split; [|split; [|split]]]].
+    - intros He. apply (matched_iff_applied P W s c H Hp He).
+    - intros He. apply (reported_iff_applied P W s c H Hp He).
+    - apply (applied_matched P W s c H Hp).
+    - apply (not_applied_unchanged W s c).
+    - apply (not_matched_unchanged P W s c H Hp).
+    - apply (all_or_nothing P W s c H Hp).
+  Qed.
 End Schema.
 
 Arguments cond_write : clear implicits.
